@@ -133,16 +133,18 @@ func pkgDir(p string) string {
 }
 
 type harnessResult struct {
-	cfg       HarnessCfg
-	tier      TierCfg
-	res       *sym.ExploreResult
-	wall      float64
-	loadErr   string
-	violation []*reportedFinding
-	known     map[string]*reportedFinding
-	mismatch  []string
-	witnessOK int
-	witnessNo []string
+	cfg        HarnessCfg
+	tier       TierCfg
+	res        *sym.ExploreResult
+	wall       float64
+	loadErr    string
+	violation  []*reportedFinding
+	known      map[string]*reportedFinding
+	candidates map[string][]*reportedFinding
+	candKeys   []string
+	mismatch   []string
+	witnessOK  int
+	witnessNo  []string
 }
 
 type reportedFinding struct {
@@ -230,7 +232,7 @@ func cmdCheck(args []string) int {
 		if tier == "thorough" {
 			tc = mergeTier(h.Quick, h.Thorough)
 		}
-		hr := &harnessResult{cfg: h, tier: tc, known: map[string]*reportedFinding{}}
+		hr := &harnessResult{cfg: h, tier: tc, known: map[string]*reportedFinding{}, candidates: map[string][]*reportedFinding{}}
 		results = append(results, hr)
 		entry, err := prog.FuncByName(pkgImport(h.Pkg) + "." + h.Func)
 		if err != nil {
@@ -332,21 +334,15 @@ func cmdCheck(args []string) int {
 		if hr.res == nil {
 			continue
 		}
-		// one representative per (msg, knownID)
-		seen := map[string]bool{}
+		// up to five candidate counterexamples per (msg, knownID), smallest
+		// decision lists first; the first one that reproduces natively is
+		// the one reported
 		for _, f := range hr.res.Stats.Findings {
 			key := f.Msg + "\x00" + f.KnownID
-			if seen[key] {
-				continue
-			}
-			seen[key] = true
 			rf := &reportedFinding{f: f}
 			rf.replayPath = writeReplay(replayDir, id, hr, f.Model, f.Msg, f.KnownID, f.Decisions)
-			if f.KnownID != "" {
-				hr.known[f.KnownID+"\x00"+f.Msg] = rf
-			} else {
-				hr.violation = append(hr.violation, rf)
-			}
+			hr.candidates[key] = append(hr.candidates[key], rf)
+			hr.candKeys = appendUnique(hr.candKeys, key)
 			jobs = append(jobs, &job{hr: hr, rf: rf, file: rf.replayPath})
 		}
 		nw := 6
@@ -400,6 +396,29 @@ func cmdCheck(args []string) int {
 				}
 				j.rf.reproduced = failed
 				j.rf.nativeMsg = strings.Join(r.Failures, "; ") + r.Panic + r.Skipped
+			}
+		}
+	}
+
+	for _, hr := range results {
+		for _, key := range hr.candKeys {
+			cands := hr.candidates[key]
+			chosen := cands[0]
+			for _, c := range cands {
+				if c.reproduced {
+					chosen = c
+					break
+				}
+			}
+			for _, c := range cands {
+				if c != chosen && c.replayPath != chosen.replayPath {
+					os.Remove(c.replayPath)
+				}
+			}
+			if chosen.f.KnownID != "" {
+				hr.known[chosen.f.KnownID+"\x00"+chosen.f.Msg] = chosen
+			} else {
+				hr.violation = append(hr.violation, chosen)
 			}
 		}
 	}
@@ -537,8 +556,9 @@ func inconclusive(id, tier string, seed int, start time.Time, msg string) int {
 		"wall_s":   time.Since(start).Seconds(), "violations": 0,
 	}
 	b, _ := json.MarshalIndent(ev, "", " ")
-	os.MkdirAll(filepath.Join(verifDir, "evidence"), 0o755)
-	os.WriteFile(filepath.Join(verifDir, "evidence", id+".json"), b, 0o644)
+	evDir := envOr("VERIF_EVIDENCE_DIR", filepath.Join(verifDir, "evidence"))
+	os.MkdirAll(evDir, 0o755)
+	os.WriteFile(filepath.Join(evDir, id+".json"), b, 0o644)
 	return 2
 }
 
@@ -858,8 +878,18 @@ func writeEvidence(id, tier string, seed int, cc *CheckCfg, results []*harnessRe
 		"wall_s":      round2(wall), "violations": violations,
 	}
 	b, _ := json.MarshalIndent(ev, "", " ")
-	os.MkdirAll(filepath.Join(verifDir, "evidence"), 0o755)
-	os.WriteFile(filepath.Join(verifDir, "evidence", id+".json"), b, 0o644)
+	evDir := envOr("VERIF_EVIDENCE_DIR", filepath.Join(verifDir, "evidence"))
+	os.MkdirAll(evDir, 0o755)
+	os.WriteFile(filepath.Join(evDir, id+".json"), b, 0o644)
+}
+
+func appendUnique(l []string, s string) []string {
+	for _, x := range l {
+		if x == s {
+			return l
+		}
+	}
+	return append(l, s)
 }
 
 func round2(f float64) float64 { return float64(int(f*100+0.5)) / 100 }
